@@ -12,6 +12,8 @@ struct KllFam {
   static SK make(int cfg) { return SK(static_cast<uint16_t>(cfg)); }
   static std::string cfg_text(int cfg) { return "k=" + std::to_string(cfg); }
   static bool allow_rt() { return false; }
+  static bool has_exact_region() { return false; }
+  static bool exact_claim(const SK&, double) { return false; }
   static SK roundtrip(const SK& s) { return s; }
   static void gen_cfgs(Rng& r, int nsk, std::vector<int>& cfg) {
     cfg.assign(static_cast<size_t>(nsk), 8);
